@@ -903,6 +903,23 @@ impl Default for GenOpts {
     }
 }
 
+pub fn si_d(u: &DistanceUnit) -> f64 {
+    match u {
+        DistanceUnit::Meters => 1.0,
+        DistanceUnit::Kilometers => 1000.0,
+        DistanceUnit::Miles => 1609.344,
+        DistanceUnit::Inches => 0.0254,
+        DistanceUnit::Feet => 0.3048,
+    }
+}
+pub fn si_w(u: &WeightUnit) -> f64 {
+    match u {
+        WeightUnit::Pounds => 0.45359237,
+        WeightUnit::Tons => 907.18474,
+        WeightUnit::Kg => 1.0,
+    }
+}
+
 pub fn gen_graph(rng: &mut Rng, n_v: usize, style: LenStyle) -> (Vec<(f32, f32)>, Vec<(usize, usize, f64)>) {
     // small lat/lon patch around Denver
     let coords: Vec<(f32, f32)> = (0..n_v)
@@ -1107,11 +1124,11 @@ pub fn gen_case(rng: &mut Rng, opts: &GenOpts) -> SCase {
         }
         if rng.chance(1, 5) {
             let params = VParams {
-                height: (rng.small_decimal(5, 1), *rng.pick(&DU)),
-                width: (rng.small_decimal(4, 1), *rng.pick(&DU)),
-                total_length: (rng.small_decimal(30, 0), *rng.pick(&DU)),
-                trailer_length: (rng.small_decimal(20, 0), *rng.pick(&DU)),
-                total_weight: (rng.small_decimal(40, 0), *rng.pick(&WU)),
+                height: (0.5 + rng.small_decimal(5, 1), *rng.pick(&DU)),
+                width: (0.5 + rng.small_decimal(4, 1), *rng.pick(&DU)),
+                total_length: (1.0 + rng.small_decimal(30, 0), *rng.pick(&DU)),
+                trailer_length: (1.0 + rng.small_decimal(20, 0), *rng.pick(&DU)),
+                total_weight: (1.0 + rng.small_decimal(40, 0), *rng.pick(&WU)),
                 axles: 1 + rng.below(5) as u8,
             };
             let k = 1 + rng.below(n_e.min(8));
@@ -1122,12 +1139,28 @@ pub fn gen_case(rng: &mut Rng, opts: &GenOpts) -> SCase {
                     if !seen.insert(e) {
                         return None;
                     }
+                    // limits straddle the vehicle's own dimensions (expressed in the restriction's unit
+                    // through independent SI factors): far below, just below, at, just above, far above
+                    let factors = [0.5, 0.9, 0.96, 0.995, 1.0, 1.005, 1.04, 1.1, 2.0];
                     let rs = (0..1 + rng.below(2))
                         .map(|_| {
-                            if rng.chance(1, 3) {
-                                Restr::Weight { per_axle: rng.chance(1, 2), limit: rng.small_decimal(40, 0), unit: *rng.pick(&WU) }
+                            let f = *rng.pick(&factors);
+                            if rng.chance(1, 2) {
+                                let unit = *rng.pick(&WU);
+                                let per_axle = rng.chance(1, 2);
+                                let w = params.total_weight.0 * si_w(&params.total_weight.1) / si_w(&unit);
+                                let w = if per_axle { w / params.axles as f64 } else { w };
+                                Restr::Weight { per_axle, limit: w * f, unit }
                             } else {
-                                Restr::Length { which: 2 + rng.below(4) as u8, limit: rng.small_decimal(30, 1), unit: *rng.pick(&DU) }
+                                let which = 2 + rng.below(4) as u8;
+                                let unit = *rng.pick(&DU);
+                                let dim = match which {
+                                    2 => params.total_length,
+                                    3 => params.width,
+                                    4 => params.height,
+                                    _ => params.trailer_length,
+                                };
+                                Restr::Length { which, limit: dim.0 * si_d(&dim.1) / si_d(&unit) * f, unit }
                             }
                         })
                         .collect();
